@@ -9,6 +9,7 @@ import time
 from typing import Any
 
 from .. import semfam, semfam2, semgen, semlean, semrun
+from . import c03_copy
 from ..runner import Check
 from ..translate import constraints as tconstraints
 
@@ -880,6 +881,10 @@ def run(ck: Check) -> None:
     campaign_focused(ck)
     campaign_random(ck, 70 if quick else 900)
     campaign_family(ck, 13 if quick else 130, 8 if quick else 100, 16 if quick else 96, 12 if quick else 96)
+    # an inherited member re-declared through `required` next to allOf: the copy of its (nested) data type
+    c03_copy.campaign_copy(ck, 17 if quick else 147, 150 if quick else 3000)
+    c03_copy.campaign_override(ck, 12 if quick else 147, c03_copy.QUICK_TARGETS if quick else FAMILY_TARGETS, oracle_doc)
+    ck.search_hooks.append(c03_copy.make_search(oracle_doc, match_none))
     ck.search_hooks.append(search)
     known_findings(ck)
 
